@@ -25,6 +25,7 @@ EXPLANATION = (
     "the CRC-16/MODBUS parameters. Decides these clauses for all paths; does not decide CRC arithmetic per byte string."
     ' R1 also includes the binding clause shared with C09.R4: _send_request binds self.command / self.response_future to its arguments before the transport write on every path, so the validator consulted at receive time is the one of the request in flight.'
     " (R1, foreign-writer) no code outside the protocol classes' own methods assigns command / response_future / the fragment buffer / the timer of a protocol object."
+    " R1's who-may-call judges set_result on the response future only (other futures of the object are not deliveries)."
 )
 
 
@@ -158,6 +159,11 @@ def r1(ctx: Ctx, rep: Report, fams):
     for fn in res.all_funcs():
         for n in res._own_nodes(fn):
             if isinstance(n, ast.Call) and isinstance(n.func, ast.Attribute) and n.func.attr == "set_result":
+                rc = chain(n.func.value)
+                if rc and len(rc) >= 2 and rc[0] == "self" and rc[-1] != "response_future" and not any(
+                        isinstance(x, ast.Attribute) and x.attr == "response_future" for m_ in ([fn.cls] if fn.cls else []) for mm in m_.methods.values()
+                        for st in ast.walk(mm.node) if isinstance(st, ast.Assign) and any(norm(t) == norm(n.func.value) for t in st.targets) for x in ast.walk(st.value)):
+                    continue      # another future of the object (never bound to / from the response future): not a delivery
                 inside = fn in cbs
                 rep.check(inside, "C01.R1", "set_result-site:%s" % fn.short, fn.loc(n),
                           "set_result is called inside a receive callback (%s)" % fn.short,
